@@ -578,6 +578,13 @@ class NumericLiteral(Expr):
                     'Illegal number (numeric value incompatible with '
                     'type char)')
 
+            if isinstance(value, float) and value in (
+                    float('inf'), float('-inf')):
+                # 1E999 or 1D999: beyond the range of the type
+                raise ValueError(
+                    f'Illegal number (does not fit in '
+                    f'{literal_type.name.upper()})')
+
             if not type_char and literal_type == Type.LONG:
                 if -32768 <= value < 32768:
                     literal_type = Type.INTEGER
